@@ -22,6 +22,9 @@ type mIdx struct {
 	Live     map[string]*mVec
 	Maint    *MaintCfg
 	AutoLink []AutoRule
+	// Range is the int8 quantiser range the engine reported after the last operation (adopted, like
+	// timestamps: the model cannot predict it, but recovery must bring back one the index actually had)
+	Range float32
 }
 
 type mEdge struct {
